@@ -19,7 +19,9 @@ KDTree<CoordType, ValueType>::KDTree()
 template <typename CoordType, typename ValueType>
 KDTree<CoordType, ValueType>::~KDTree() {
   std::deque<Node*> to_delete;
-  to_delete.emplace_back(this->root);
+  if (this->root) {
+    to_delete.emplace_back(this->root);
+  }
   while (!to_delete.empty()) {
     Node* n = to_delete.front();
     to_delete.pop_front();
